@@ -104,6 +104,8 @@ def r2(ctx, rep, rejected):
         for cb in cbs:
             n = 0
             verdict = {"ok": True, "why": "", "path": None}
+            from ..replay import Replay
+            from ..symx import Lin
             for p in protocol_paths(ctx, cb):
                 idx = [i for i, ev in enumerate(p.events) if ev.kind == "catch" and ev.data is rejected]
                 if not idx:
@@ -111,13 +113,16 @@ def r2(ctx, rep, rejected):
                 n += 1
                 i = idx[0]
                 exname = p.events[i].node.name
-                after = p.events[i + 1:]
+                caught = Lin.of_term(("exc", prog.exc_name(rejected), exname)) if exname else None
+                rp = Replay(prog, cb, p)
                 delivered = False
                 why = ""
-                for ev in after:
+                for k in range(i + 1, len(p.events)):
+                    ev = p.events[k]
                     t = tags(ev)
                     if ev.kind == "call" and "fut_set_exception" in t:
-                        if ev.node.args and isinstance(ev.node.args[0], ast.Name) and ev.node.args[0].id == exname:
+                        # the object set on the future is the caught exception, under whatever name it reached this call
+                        if ev.node.args and caught is not None and rp.sym_at(k).lin(ev.node.args[0]) == caught:
                             delivered = True
                         else:
                             why = "a different exception (%s) is set on the future" % norm(ev.node.args[0] if ev.node.args else ev.node)
